@@ -112,6 +112,7 @@ fn variant_bin(variant: &str) -> Option<String> {
     match variant {
         "release" => Some(std::env::current_exe().unwrap().to_string_lossy().to_string()),
         "dbg" => std::env::var("VCHECK_BIN_DBG").ok(),
+        "dev" => std::env::var("VCHECK_BIN_DEV").ok(),
         "asan" => std::env::var("VCHECK_BIN_ASAN").ok(),
         "tsan" => std::env::var("VCHECK_BIN_TSAN").ok(),
         "valgrind" => std::env::var("VCHECK_BIN_VALGRIND").ok().or_else(|| Some(std::env::current_exe().unwrap().to_string_lossy().to_string())),
